@@ -273,9 +273,9 @@ Definition ext_path (segs : list string) : string :=
 (** propFindFile *)
 Definition file_props (n : node) : props :=
   match n with
-  | Dir _ => [(n_resourcetype, Val (VRes [n_collection]))]
+  | Dir _ => [(n_resourcetype, Val (VRes [n_collection])); (n_getlastmodified, Val VOpaque)]
   | File mime =>
-    [(n_resourcetype, Val (VRes [])); (n_getcontentlength, Val VOpaque); (n_getlastmodified, Val VOpaque)]
+    [(n_resourcetype, Val (VRes [])); (n_getlastmodified, Val VOpaque); (n_getcontentlength, Val VOpaque)]
     ++ opt_prop mime n_getcontenttype ++ [(n_getetag, Val VOpaque)]
   end%list.
 
